@@ -19,20 +19,21 @@ use serde_json::Value;
 use crate::mdmod::md_parser;
 use crate::util::*;
 
-fn pass_output(tc: &TestCase) -> Vec<u8> {
+// variant 0: the expression the parsed expectation carries; variant 1: the expression its `original` line parses to
+fn pass_output(tc: &TestCase, variant: usize) -> Vec<u8> {
     let maker = ExpectationMaker::new(RuleRegistry::default());
     let mut out = vec![];
     for e in &tc.expectations {
-        let (_kind, expr, _o, _m) = maker.parse(&e.original_string()).map(|x| x.unmake()).unwrap_or_else(|_| e.unmake());
+        let (_kind, expr, _o, _m) = if variant == 0 { e.unmake() } else { maker.parse(&e.original_string()).map(|x| x.unmake()).unwrap_or_else(|_| e.unmake()) };
         out.extend(expr);
         out.push(b'\n');
     }
     out
 }
 
-fn outputs_for(tests: &[TestCase], classes: &[String]) -> Vec<Output> {
+fn outputs_for(tests: &[TestCase], classes: &[String], variant: usize) -> Vec<Output> {
     tests.iter().zip(classes.iter()).map(|(tc, c)| {
-        let mut stdout = pass_output(tc);
+        let mut stdout = pass_output(tc, variant);
         let mut code = tc.exit_code.unwrap_or(0);
         match c.as_str() {
             // the new line itself starts with a fence followed by text (the rewritten block must be fenced longer)
@@ -50,7 +51,7 @@ fn update(text: &str, tests: &[TestCase], outputs: &[Output], escaper: &Escaper)
             location: None, output: o.clone(), testcase: tc.clone(), format: ParserType::Markdown,
             escaping: escaper.clone(), result: tc.validate(o),
         }).collect();
-        MarkdownUpdateGenerator::default().generate_update(text, &outcomes.iter().collect::<Vec<_>>())
+        MarkdownUpdateGenerator::new(&["scrut", "sh"]).generate_update(text, &outcomes.iter().collect::<Vec<_>>())
     })
 }
 
@@ -142,14 +143,18 @@ pub fn replay(args: &[String]) {
         let line_recs: Vec<Value> = lines.iter().map(|l| json!({"txt": l, "rest": l.trim_start_matches('`')})).collect();
         for (ai, classes) in assignments(nblocks_cmd, seed, *id).into_iter().enumerate() {
             let escaper = if pick(seed, *id + ai as u64, 2) == 0 { Escaper::Unicode } else { Escaper::Ascii };
-            let outputs = outputs_for(&tests, &classes);
             // the constructed outputs must realise the intended classes (otherwise the vector is not usable)
-            let realised = tests.iter().zip(outputs.iter()).zip(classes.iter()).all(|((tc, o), c)| {
+            let realises = |outputs: &[Output]| tests.iter().zip(outputs.iter()).zip(classes.iter()).all(|((tc, o), c)| {
                 let r = tc.validate(o);
                 match c.as_str() { "pass" => r.is_ok(), "output" => matches!(r, Err(scrut::testcase::TestCaseError::MalformedOutput(_))),
                                    _ => matches!(r, Err(scrut::testcase::TestCaseError::InvalidExitCode { .. })) }
             });
-            if !realised {
+            let mut outputs = outputs_for(&tests, &classes, 0);
+            if !realises(&outputs) {
+                outputs = outputs_for(&tests, &classes, 1);
+            }
+            if !realises(&outputs) {
+                out.push(json!({"ev": "Unrealised", "id": id * 100 + ai as u64}));
                 continue;
             }
             let mut obs = json!({"result": "ok", "decomposed": false, "blocks": [], "idempotent": false, "same_commands": false, "reparse_passes": false, "detail": ""});
